@@ -66,8 +66,9 @@ func (n *Names) get(name string) *ident {
 		wallet: crypto.PubkeyToAddress(key.PublicKey).Hex(),
 	}
 	n.byName[name] = id
-	n.reverse[strings.ToLower(id.nodeID)] = name
-	n.reverse[strings.ToLower(id.wallet)] = name
+	n.reverse[id.nodeID] = name
+	n.reverse[strings.ToLower(id.wallet)] = name + "L" // lower-case spelling = a different account string
+	n.reverse[id.wallet] = name
 	return id
 }
 
@@ -90,12 +91,15 @@ func (n *Names) wallet(name string) string {
 	if strings.HasPrefix(name, "raw:") {
 		return name[4:]
 	}
+	if strings.HasSuffix(name, "L") {
+		return strings.ToLower(n.get(name[:len(name)-1]).wallet)
+	}
 	return n.get(name).wallet
 }
 
 // abs returns the abstract name of a concrete id / address (or "raw:<x>").
 func (n *Names) abs(concrete string) string {
-	if a, ok := n.reverse[strings.ToLower(concrete)]; ok {
+	if a, ok := n.reverse[concrete]; ok {
 		return a
 	}
 	return "raw:" + concrete
